@@ -179,22 +179,22 @@ impl Tag {
     pub const BMP_STRING: Self = Tag([30, 0, 0, 0]);
 
     /// The tag for the DATE type, UNIVERSAL 31.
-    pub const DATE: Self = Tag([31, 0, 0, 0]);
+    pub const DATE: Self = Tag([0x1f, 31, 0, 0]);
 
     /// The tag for the TIME-OF-DAY type, UNIVERSAL 32.
-    pub const TIME_OF_DAY: Self = Tag([32, 0, 0, 0]);
+    pub const TIME_OF_DAY: Self = Tag([0x1f, 32, 0, 0]);
 
     /// The tag for the DATE-TIME type, UNIVERSAL 33.
-    pub const DATE_TIME: Self = Tag([33, 0, 0, 0]);
+    pub const DATE_TIME: Self = Tag([0x1f, 33, 0, 0]);
 
     /// The tag for the DURATION type, UNIVERSAL 34.
-    pub const DURATION: Self = Tag([34, 0, 0, 0]);
+    pub const DURATION: Self = Tag([0x1f, 34, 0, 0]);
 
     /// The tag for the OID-IRI type, UNIVERSAL 35.
-    pub const OID_IRI: Self = Tag([35, 0, 0, 0]);
+    pub const OID_IRI: Self = Tag([0x1f, 35, 0, 0]);
 
     /// The tag for the RELATIVE-OID-IRI type, UNIVERSAL 36.
-    pub const RELATIVE_OID_IRI: Self = Tag([36, 0, 0, 0]);
+    pub const RELATIVE_OID_IRI: Self = Tag([0x1f, 36, 0, 0]);
 
     //--- The first few context-specific tags.
     //
